@@ -529,7 +529,7 @@ func noteFrame(f spec.Frame, s *pipe.Session) {
 }
 
 func sendUplink(w *world, id int, r *sim.Rand, live bool) {
-	simrt.Progress()
+	sim.Op()
 	d := w.dev[id]
 	f := spec.GenFrame(r, true, d.sess.DevAddr, d.fcntUp, gen(true), 242)
 	tx := pipe.TxParams{ConfFCnt: d.lastConfDown, TxDR: uint8(r.Intn(16)), TxCh: uint8(r.Intn(72))}
@@ -667,7 +667,7 @@ func reconstruct(last uint32, wire16 uint16) uint32 {
 // receive is one arrival at `rcv` (-1 = NS, else device index). It returns
 // whether the library accepted the frame.
 func receive(w *world, p *packet, rcv int, r *sim.Rand) bool {
-	simrt.Progress()
+	sim.Op()
 	simrt.Count(cArrivals)
 	expectUplink := rcv < 0
 	var me *side
